@@ -246,4 +246,63 @@ def run (cfg : Cfg C P) (mode : CopyMode) : State C → List (Ev P) → State C 
 def view (cfg : Cfg C P) (st : State C) (k : Key) : Option (Row C) :=
   rowOf cfg (st.file k) (memViewOf st.heap st.live k)
 
+/-! ## The scan's ENVIRONMENT
+
+A scan reads more shared mutable state than the memstore bytes: the database clock (through
+`truncateBefore = now − retention`, which `Sequence.Merge` uses to drop the older operand),
+the table's field lists (`rowMapper` / `rowMerger` index tables), the file store pointer, the
+flush counter …  Everything of that kind is gathered in an environment `E`; `cfgOf e` is the
+configuration of the sequence/row operations under environment `e` (only `merge` and `wr` may
+depend on it — see `SameShape`).  `setEnv` is ANY change of the shared environment (a processed
+point or `VerifAdvanceClock` moving the clock past a retention boundary, an ALTER TABLE, …).
+`scanStart` captures the current environment in the scan's record (`EState.envs`, parallel to
+`State.scans`); a delivery computes its row under `rr captured current`:
+* `rr = keepCaptured` — the code as it is: `fileStore.iterate` computes `truncateBefore`,
+  `outFields`, `memToOut`, `fileToOut` once, before the first row;
+* any `rr` that looks at `current` models a per-row re-read (e.g. passing the method value
+  `fs.t.truncateBefore` into `rowMerger`). -/
+
+structure EState (C E : Type) where
+  base : State C := {}
+  /-- the shared environment right now -/
+  cur : E
+  /-- per scan: the environment captured at its `scanStart` -/
+  envs : List E := []
+
+inductive EEv (P E : Type)
+  | base (e : Ev P)
+  | setEnv (e : E)
+  deriving Repr, Inhabited
+
+/-- the code as it is: a delivery uses the captured environment only -/
+def keepCaptured {E : Type} (captured _current : E) : E := captured
+
+def estep {E : Type} (cfgOf : E → Cfg C P) (mode : CopyMode) (rr : E → E → E) (st : EState C E) :
+    EEv P E → EState C E × Option (Delivery C)
+  | .setEnv e => ({ st with cur := e }, none)
+  | .base .scanStart =>
+      ({ st with base := scanStart mode st.base, envs := st.envs ++ [st.cur] }, none)
+  | .base (.deliver sid k) =>
+      match st.base.scans[sid]?, st.envs[sid]? with
+      | some sc, some en => (st, some (sid, k, deliverRow (cfgOf (rr en st.cur)) st.base sc k))
+      | _, _ => (st, some (sid, k, none))
+  | .base e => ({ st with base := (step (cfgOf st.cur) mode st.base e).1 }, none)
+
+def erun {E : Type} (cfgOf : E → Cfg C P) (mode : CopyMode) (rr : E → E → E) :
+    EState C E → List (EEv P E) → EState C E × List (Delivery C)
+  | st, [] => (st, [])
+  | st, e :: es =>
+      let (st1, d) := estep cfgOf mode rr st e
+      let (st2, ds) := erun cfgOf mode rr st1 es
+      (st2, d.toList ++ ds)
+
+/-- the table as of `st`, environment included -/
+def eview {E : Type} (cfgOf : E → Cfg C P) (st : EState C E) (k : Key) : Option (Row C) :=
+  view (cfgOf st.cur) st.base k
+
+/-- a variant that re-reads the FILE STORE pointer at delivery time (`rs.fileStore` instead of
+    the `fs` taken under the lock together with the copy) -/
+def deliverRowLiveFile (cfg : Cfg C P) (st : State C) (sc : Scan C) (k : Key) : Option (Row C) :=
+  rowOf cfg (st.file k) (memViewOf st.heap sc.nodes k)
+
 end Zeno.Snap
